@@ -345,6 +345,8 @@ func c12Case(t *rapid.T, col *ev.Collector, longLived bool) {
 		}
 		var allFrames [][]frame
 		nontrivial := false
+		var pastMsgs []mocrelay.ServerMsg // everything handlers emitted on earlier connections of the case
+		var pastWant []string
 		for ci := 0; ci < nconn; ci++ {
 			if longLived && rapid.IntRange(0, 3).Draw(t, fmt.Sprintf("c%d.abrupt", ci)) == 0 {
 				// a client that fires a few EVENTs and hangs up at once: the session ends while its
@@ -502,6 +504,15 @@ func c12Case(t *rapid.T, col *ev.Collector, longLived bool) {
 			var outMsgs []mocrelay.ServerMsg
 			var want []string
 			for i := 0; i < nout; i++ {
+				// a handler may hand over the very same message object again (a prebuilt NOTICE, an
+				// event it fans out), on this or on a later connection: it reads as it did the first time
+				if len(pastMsgs) > 0 && rapid.IntRange(0, 3).Draw(t, fmt.Sprintf("c%d.out%d.again?", ci, i)) == 0 {
+					k := rapid.IntRange(0, len(pastMsgs)-1).Draw(t, fmt.Sprintf("c%d.out%d.again", ci, i))
+					outMsgs = append(outMsgs, pastMsgs[k])
+					want = append(want, pastWant[k])
+					col.Label("output:same-object-again")
+					continue
+				}
 				m := gen.ServerMsgValue(t, fmt.Sprintf("c%d.out%d.", ci, i))
 				if rapid.IntRange(0, 7).Draw(t, fmt.Sprintf("c%d.out%d.big?", ci, i)) == 0 {
 					// also beyond what the relay itself accepts: the size limit is on what it reads
@@ -512,6 +523,8 @@ func c12Case(t *rapid.T, col *ev.Collector, longLived bool) {
 				}
 				outMsgs = append(outMsgs, m)
 				want = append(want, expectedServerJSON(m))
+				pastMsgs = append(pastMsgs, m)
+				pastWant = append(pastWant, want[len(want)-1])
 			}
 			h.setEmit(outMsgs)
 			emitSentinel := fmt.Sprintf("%s%d-emit", sentinelPrefix, ci)
